@@ -1,5 +1,5 @@
 import Lean.Data.Json
-import Lp.Writers
+import Lp.WritersChef
 open Lean Writers
 
 def boxOfJson (j : Json) : Except String InBox := do
@@ -33,6 +33,14 @@ partial def loop (h : IO.FS.Stream) : IO Unit := do
       let mode := byfileMode l1 l2
       return Json.mkObj [("byfile", toJson mode),
         ("levels", toJson ((List.zip l1 l2).map fun (a, b) => (combineLevel mode a b v1 v2).map outJ))]
+    else if op == "chef" then
+      let lv ← levelsOfJson (← j.getObjVal? "levels")
+      let kept ← natList (← j.getObjVal? "kept")
+      let nfIn ← (← j.getObjVal? "nf_in").getNat?
+      let newc ← (← j.getObjVal? "new").getArr?          -- per level, per box: list of tags
+      let newLv ← newc.toList.mapM fun l => do
+        (← l.getArr?).toList.mapM fun b => do (← b.getArr?).toList.mapM (·.getInt?)
+      return toJson ((List.zip lv newLv).map fun (b, nw) => (chef b nfIn kept (fun i => nw.getD i [])).map outJ)
     else throw "bad-op"
   match r with
   | .ok j => IO.println j.compress
